@@ -11,8 +11,8 @@
 // untouched `&mut` arguments, lengths):
 //   DenseMatrixSym3: zeros, index_linear (slot of (r, c) = tri(max) + min: the packed upper triangle, column by column; lemma_sym3_table ties it to
 //     the documented order 00,01,11,02,12,22), Index::index / IndexMut::index_mut (entry (r, c); exactly that slot can change), mul (y_i = row i of
-//     the SYMMETRIC matrix times x), quad_form, norm_fro (off-diagonals twice), scaled_from, copy_from, cholesky_3x3_explicit_factor / _solve
-//     (panic-freedom only: every (r, c) inside 3 x 3);  scalarmath.rs: triangular_number, logsafe (second copies).
+//     the SYMMETRIC matrix times x), quad_form, norm_fro (off-diagonals twice), scaled_from, copy_from, cholesky_3x3_explicit_factor (true <=> the three
+//     pivots are not <= 0; then the six entries of L as evaluated) / _solve (the three entries of x as evaluated); that L L' = A is not stated;  scalarmath.rs: triangular_number, logsafe (second copies).
 //   ExponentialCone and PowerCone (same list): new (all zero; alpha stored), degree = numel = 3, is_symmetric = false, is_sparse_expandable =
 //     false, allows_primal_dual_scaling = TRUE and Hs_is_diagonal = false (the task text said false / no-op for two of these: the code and the
 //     comment in cones/mod.rs - "report false here if only dual scaling is implemented (e.g. GenPowerCone)" - say otherwise; set_identity_scaling is
@@ -23,8 +23,11 @@
 //     higher_correction_spec(cone, step_s, step_z); step vectors untouched), Delta_s_from_Delta_z_offset (out = ds), compute_barrier (0 + dual barrier at
 //     z + a*dz + primal barrier at s + a*ds), is_primal_feasible / is_dual_feasible (the strict comparisons on the documented cone inequalities),
 //     update_dual_grad_H (all 3 + 6 written entries), barrier_dual (the documented formula), barrier_primal (exp: through f_wright_omega; pow:
-//     through the assumed primal gradient), exp gradient_primal, split_borrow_mut, higher_correction_body (REAL body: no panic for vectors of
-//     length 3, cone not modified - the provable half of the assumed contract below);
+//     through the primal gradient), gradient_primal (exp: through f_wright_omega; pow: the WHOLE function - phi = s0^(2a) s1^(2-2a); |s2| > eps:
+//     g2 = +-newton(|s2|, phi, a) by the sign of s2, g0 = -(a g2 s2 + 1 + a)/s0, g1 = -((1-a) g2 s2 + 2 - a)/s1; else (-(1+a)/s0, -(2-a)/s1, 0) -
+//     with only `_newton_raphson_powcone` a stand-in; seed C14_J), split_borrow_mut, higher_correction (exp and pow: every entry of eta as the
+//     expression evaluated - u = the Cholesky solution of H u = ds, g_psi, psi, H_psi, coef, coef2, the two dot products, the final halving; eta = 0
+//     when a pivot fails; cone not modified);
 //     margins / scaled_unit_shift / set_identity_scaling (`unreachable!()`; rule `unreach`: the panic is divergence): `ensures false`, i.e. a call
 //     never returns - a body that returns fails it.  That they are never CALLED is the callers' obligation and is argued by inspection: the only
 //     call chains are default_start -> set_identity_scaling and default_start -> symmetric_initialization -> _shift_to_cone_interior ->
@@ -40,10 +43,9 @@
 //     is_sparse_expandable (true), allows_primal_dual_scaling (false), Hs_is_diagonal (true), unit_initialization (sqrt(1 + alpha_i) | 0; z = s),
 //     update_scaling (mu and z stored), get_Hs (mu*d1_i | mu*d2), mul_Hs (gp_mulHs_entry), affine_ds, combined_ds_shift (grad_i*sigma_mu),
 //     Delta_s_from_Delta_z_offset, compute_barrier (PRIMAL barrier first), step_length (contract shape of unit `steplen`; work vector restored),
-//     gradient_primal as a STATEMENT SLICE `gradient_primal_tail` (from `let (p, r) = s.split_at(dim1);` to the end; finding F9): |r| > eps:
+//     gradient_primal (the WHOLE function; finding F9): phi = prod s_i^(2 a_i) as the left fold from 1; |r| > eps:
 //     g[dim1 + i] = (g1/|r|) * s[dim1 + i] - the TAIL OF s, no field of the cone - and g[i] = -(1 + a_i + a_i*g1*|r|)/s[i]; otherwise tail 0 and
-//     g[i] = -(1 + a_i)/s[i]; g1 = gp_g1_spec(|r|, p, phi, alpha, psi) (stand-in for `_newton_raphson_genpowcone`); the fold computing phi is
-//     dropped (phi is a parameter of the slice),
+//     g[i] = -(1 + a_i)/s[i]; g1 = gp_g1_spec(|r|, p, phi, alpha, psi) (stand-in for `_newton_raphson_genpowcone`),
 //     barrier_primal (-f*(-g(s)) - (dim1 + 1), g = the gradient above with phi = gp_phi_spec; work_pb is scratch),
 //     is_primal_feasible / is_dual_feasible (C14; from the cone definitions K = {prod u_i^a_i >= |w|}, K* = {prod (u_i/a_i)^a_i >= |w|}: true <=>
 //     every u_i > 0 and exp(sum_i 2 a_i log u_i) - sumsq(w) > 0, resp. log(u_i/a_i); the sum as the left fold performed; rule R24 extended to
@@ -58,16 +60,15 @@
 // ASSUMED:
 //   * `unreachable_panic()` does not return (what a panic is); prelude/float_opaque.rs, prelude/vecmath_assumed.rs (copy_from, set, scale, axpby, waxpby, scalarop_from, dot, sum, sumsq: proved in unit
 //     `vecmath`), VectorMath::normalize (local extension trait; proved in unit `vecmath_more`), `core::mem::take` returns the old value;
-//   * stand-ins with uninterpreted results, each a function of exactly what the body reads: higher_correction of exp / pow (value; "cone not
-//     modified" and panic-freedom are PROVED on the real body, see higher_correction_body), PowerCone::gradient_primal (Newton iteration
-//     `_newton_raphson_powcone`, two closures), `_wright_omega` (value f_wright_omega(z); precondition = its documented panic `z < 0`),
-//     `_newton_raphson_genpowcone` (value gp_g1_spec of its arguments), the phi fold of GenPowerCone::gradient_primal (gp_phi_spec; the whole
-//     function is ASSUMED to be its verified tail slice run with that phi);
+//   * three stand-ins with uninterpreted VALUES, each a function of exactly its arguments: `_newton_raphson_powcone` (pow_g3_spec),
+//     `_newton_raphson_genpowcone` (gp_g1_spec) - their real bodies are verified for panic-freedom / termination (`.._body`: x0, the closures f0, f1
+//     incl. their folds, the call of newton_raphson_onesided with total closures), the value of the iteration is not specified - and
+//     `_wright_omega` (f_wright_omega(z); precondition = its documented panic `z < 0`);
 //   * F-real: prelude/float_real_axioms.rs, and the local ADMITTED block `ln_ax` (log is a function of the real value; log(1/x) = -log x for
 //     x > 0) used ONLY by lemma_exp_primal_accept_no_panic.  canary_real_axioms and canary_ln must FAIL.
 // DROPPED (not under contract): `_wright_omega` body (raw f64 constant arithmetic `1. / 16.0`: vstd's f64 division has preconditions),
-//   `_newton_raphson_powcone`, `_newton_raphson_genpowcone`, PowerCone::gradient_primal, GenPowerCone::{the phi fold of gradient_primal,
-//   higher_correction (`unimplemented!()`, never called: combined_ds_shift has no correction)}; the arithmetic content of the Cholesky pair.
+//   the VALUES of the three scalar iterations, GenPowerCone::higher_correction (`unimplemented!()`, never called: combined_ds_shift has no
+//   correction); the algebraic meaning of the Cholesky pair (L L' = A).  No other body of the three cone files is assumed.
 // OPEN ITEMS:
 //   1. (C04) `_wright_omega` panics for a negative argument.  ExponentialCone::{compute_barrier, update_scaling / update_Hs /
 //      use_primal_dual_scaling (strategy != Dual), gradient_primal, barrier_primal} therefore carry the explicit precondition `primal_pre`
@@ -81,7 +82,7 @@
 //      product of powf): not derivable in the float symbols, not proved; the composite stand-ins of unit `composite` do not carry it.
 //   3. additions to tools/extract.py (additive): R24 accepts fold closures `|acc, pat| -> T { EXPR }`; rule `tupassignx` ((z[0], z[1], z[2]) = (s[0], s[1], s[2]) -> three assignments), rule
 //      `unreach` (`unreachable!();` -> `return unreachable_panic();`, a local fn with `ensures false`), directive `//@after_loop k`.
-// MUTATION ROUND (scratch copy of /repo, one wrong edit at a time, whole unit re-verified): 98 valid wrong edits, 98 rejected by a named
+// MUTATION ROUND (scratch copy of /repo, one wrong edit at a time, whole unit re-verified): 120 valid wrong edits, 120 rejected by a named
 //   obligation, 0 survivors (one further edit did not compile).  E.g. PowerCone::unit_initialization `s[2] = 0` written to `z[2]`; central-point
 //   digits swapped / one digit changed; z copied from the wrong component; DenseMatrixSym3::mul wrong row, packing order of index_linear,
 //   norm_fro off-diagonals once, quad_form entry, scaled_from index; get_Hs / mul_Hs from H_dual; affine_ds / offset copying z; compute_barrier
@@ -93,10 +94,13 @@
 //   `norm_r` -> `phi` in the quotient, wrong else branch, `* norm_r` dropped, tail not zeroed, comparison flipped; barrier_primal: negate dropped,
 //   sign of the degree term, wrong argument; gen-power membership tests: `>=` in the positivity test, head <-> tail, `two * a_i` -> `a_i`, primal /
 //   dual bodies swapped, sumsq -> norm, sumsq of the head, `res >= 0`, fall-through `true`; barrier_dual: 3 edits; update_dual_grad_H: 11 edits (phi
-//   exponent, zeta sign, assert bound, grad sign / source, d1, d2, p0 <-> p1, q not scaled, r source, r1); backtrack_search trial point.  (Dropping
+//   exponent, zeta sign, assert bound, grad sign / source, d1, d2, p0 <-> p1, q not scaled, r source, r1); backtrack_search trial point.  PowerCone::gradient_primal: seed C14_J (`s[2]` -> `abs_s`), sign test,
+//   `two - a` -> `one - a` (both branches), phi exponent, Newton argument, `>=` eps; higher_correction: 5 edits (exp), 4 (pow); Cholesky: pivot `<`,
+//   L21 divisor, x1 entry; gen-power gradient: phi fold, `&data.r` (F9), Newton arguments.  (Dropping
 //   `alpha *= step` in backtrack_search ends as a LOST ANCHOR, exit 2 = undecided, in this unit as in `steplen`.)
-// COST: 179 obligations, about 20 s; heaviest: use_primal_dual_scaling 7.3 M (exp) / 7.1 M (pow) of the 150 M of `--rlimit 50` (4.9 %),
-//   GenPowerCone::update_dual_grad_H 3.0 M, mul_Hs 1.6 M, gradient_primal_tail 1.5 M, barrier_dual 1.3 M, everything else below 1 M.  Stable under Z3 seeds 1-6 (tools/stability_probe.py).
+// COST: 186 obligations, about 20 s; heaviest: use_primal_dual_scaling 7.2 M (exp) / 7.0 M (pow) of the 150 M of `--rlimit 50` (4.8 %),
+//   GenPowerCone::update_dual_grad_H 2.9 M, gradient_primal 1.8 M, PowerCone::higher_correction 1.8 M, GenPowerCone::mul_Hs 1.6 M, the rest
+//   below 1.3 M.  Stable under Z3 seeds 1-6.
 use vstd::prelude::*;
 verus! {
 global size_of usize == 8;
@@ -180,6 +184,27 @@ pub proof fn lemma_sym3_upper()
 pub open spec fn upper_done(i: int, j: int, a: int, b: int) -> bool { a < i || (a == i && b < j) }
 pub open spec fn all_eq(a: Seq<F>, c: F) -> bool { forall|i: int| 0 <= i < a.len() ==> #[trigger] a[i] == c }
 
+pub open spec fn ch_l00(a: Seq<F>) -> F { f_sqrt(m3(a, 0, 0)) }
+pub open spec fn ch_l10(a: Seq<F>) -> F { f_div(m3(a, 1, 0), ch_l00(a)) }
+pub open spec fn ch_t1(a: Seq<F>) -> F { f_sub(m3(a, 1, 1), f_mul(ch_l10(a), ch_l10(a))) }
+pub open spec fn ch_l11(a: Seq<F>) -> F { f_sqrt(ch_t1(a)) }
+pub open spec fn ch_l20(a: Seq<F>) -> F { f_div(m3(a, 2, 0), ch_l00(a)) }
+pub open spec fn ch_l21(a: Seq<F>) -> F { f_div(f_sub(m3(a, 2, 1), f_mul(ch_l10(a), ch_l20(a))), ch_l11(a)) }
+pub open spec fn ch_t2(a: Seq<F>) -> F { f_sub(f_sub(m3(a, 2, 2), f_mul(ch_l20(a), ch_l20(a))), f_mul(ch_l21(a), ch_l21(a))) }
+pub open spec fn ch_l22(a: Seq<F>) -> F { f_sqrt(ch_t2(a)) }
+// all three pivots pass `t <= 0 => return false`
+pub open spec fn ch_ok(a: Seq<F>) -> bool { !f_le(m3(a, 0, 0), f_zero()) && !f_le(ch_t1(a), f_zero()) && !f_le(ch_t2(a), f_zero()) }
+pub open spec fn ch_solve(l00: F, l10: F, l11: F, l20: F, l21: F, l22: F, b: Seq<F>) -> Seq<F> {
+    let c1 = f_div(b[0], l00);
+    let c2 = f_div(f_sub(f_mul(b[1], l00), f_mul(b[0], l10)), f_mul(l00, l11));
+    let d3 = f_mul(f_mul(l00, l11), l22);
+    let c3 = f_div(f_sub(f_add(f_sub(f_mul(f_mul(b[2], l00), l11), f_mul(f_mul(b[1], l00), l21)), f_mul(f_mul(b[0], l10), l21)), f_mul(f_mul(b[0], l11), l20)), d3);
+    seq![f_div(f_sub(f_add(f_sub(f_mul(f_mul(c1, l11), l22), f_mul(f_mul(c2, l10), l22)), f_mul(f_mul(c3, l10), l21)), f_mul(f_mul(c3, l11), l20)), d3),
+         f_div(f_sub(f_mul(c2, l22), f_mul(c3, l21)), f_mul(l11, l22)),
+         f_div(c3, l22)]
+}
+// the solution of H u = b the pair computes (when ch_ok(h))
+pub open spec fn ch_solution(h: Seq<F>, b: Seq<F>) -> Seq<F> { ch_solve(ch_l00(h), ch_l10(h), ch_l11(h), ch_l20(h), ch_l21(h), ch_l22(h), b) }
 impl DenseMatrixSym3<F> {
 //@fn file=src/algebra/densesym3x3/mod.rs in="impl<T> DenseMatrixSym3<T>" name=zeros rules=R1 ret=r
 //@contract
@@ -236,16 +261,21 @@ impl DenseMatrixSym3<F> {
 //@contract
     ensures final(self).data@ == src.data@,
 //@end
-// the explicit 3 x 3 Cholesky pair (used by higher_correction only): panic-freedom (every (r, c) index inside the 3 x 3 shape) and
-// "returns false for a non-positive pivot"; the arithmetic content (L L' = A, L L' x = b) is not stated
+// the explicit 3 x 3 Cholesky pair (used by higher_correction only), as evaluated: "Returns `false` for a non-positive pivot and the
+// factorization is not completed"; on success the lower-triangular factor L (stored in the symmetric type: entry (i, j) in slot (j, i));
+// the solve is the unrolled forward / backward substitution.  That L L' = A and L L' x = b is NOT stated (no arithmetic axioms here).
 //@fn file=src/algebra/densesym3x3/mod.rs in="impl<T> DenseMatrixSym3<T>" name=cholesky_3x3_explicit_factor rules=R1,tupidx ret=r
 //@contract
-    ensures !f_le(m3(A.data@, 0, 0), f_zero()) || !r,      // the first pivot test, on A[(0,0)] itself
+    ensures r == ch_ok(A.data@),
+        r ==> m3(final(self).data@, 0, 0) == ch_l00(A.data@) && m3(final(self).data@, 1, 0) == ch_l10(A.data@) && m3(final(self).data@, 1, 1) == ch_l11(A.data@)
+            && m3(final(self).data@, 2, 0) == ch_l20(A.data@) && m3(final(self).data@, 2, 1) == ch_l21(A.data@) && m3(final(self).data@, 2, 2) == ch_l22(A.data@),
+//@pre
+    proof { lemma_sym3_table(); }
 //@end
 //@fn file=src/algebra/densesym3x3/mod.rs in="impl<T> DenseMatrixSym3<T>" name=cholesky_3x3_explicit_solve rules=R1,tupidx
 //@contract
     requires old(x)@.len() == 3, b@.len() == 3,
-    ensures final(x)@.len() == 3,
+    ensures final(x)@ =~= ch_solve(m3(self.data@, 0, 0), m3(self.data@, 1, 0), m3(self.data@, 1, 1), m3(self.data@, 2, 0), m3(self.data@, 2, 1), m3(self.data@, 2, 2), b@),
 //@end
 }
 
@@ -338,6 +368,16 @@ pub open spec fn dual_scaled(hs1: Seq<F>, h: Seq<F>, mu: F) -> bool { forall|k: 
 pub uninterp spec fn f_wright_omega(z: F) -> F;
 #[verifier::external_body] fn _wright_omega(z: F) -> (r: F) requires !f_lt(z, f_zero()), ensures r == f_wright_omega(z), { unimplemented!() }
 
+// the real text of `_newton_raphson_powcone` (powcone.rs): panic-freedom / termination only (it builds x0, t0 and the two closures f0, f1 and
+// hands them to newton_raphson_onesided, whose precondition - total closures - is discharged here); its VALUE stays the uninterpreted
+// pow_g3_spec of the stand-in used by gradient_primal
+//@fn file=src/solver/core/cones/powcone.rs name=_newton_raphson_powcone as=_newton_raphson_powcone_body rules=R1,R2 ret=r
+//@end
+// likewise `_newton_raphson_genpowcone` (genpowcone.rs; the two closures contain folds): panic-freedom / termination only
+//@fn file=src/solver/core/cones/genpowcone.rs name=_newton_raphson_genpowcone as=_newton_raphson_genpowcone_body rules=R1,R2,R24,R5,zipidx:1=ii ret=r
+//@loop 1
+                invariant r14_n1 <= alpha@.len(), r14_n1 <= p@.len(),
+//@end
 // ------------------------------------------------------------------ ExponentialCone (cones/expcone.rs)
 //@struct file=src/solver/core/cones/expcone.rs name=ExponentialCone
 // the central point of the exponential cone (documented in unit_initialization): s = z = this
@@ -378,7 +418,43 @@ pub open spec fn exp_gradient_primal(s: Seq<F>) -> Seq<F> {
          f_sub(f_add(g0, f_mul(g0, logsafe_spec(f_div(f_mul(om, s[1]), s[2])))), f_div(f_one(), s[1])),
          f_div(om, f_mul(f_sub(f_one(), om), s[2])))
 }
-pub uninterp spec fn exp_higher_correction(h: Seq<F>, z: Seq<F>, ds: Seq<F>, v: Seq<F>) -> Seq<F>;
+// 3rd-order correction eta at the stored point z (expcone.rs: "efficient implementation" of
+//   eta = -0.5*[(u'H_psi v psi - 2 <g_psi,u><g_psi,v>)/psi^3 g_psi + <g_psi,u>/psi^2 H_psi v + <g_psi,v>/psi^2 H_psi u - dot_psi_uv/psi + dot_h_uv]),
+// u = H^{-1} ds through the explicit Cholesky pair (eta = 0 if a pivot fails), g_psi = (log(-z0/z2), 1, -z0/z2), psi = z0 g_psi0 - z0 + z1:
+// every entry as the float expression evaluated
+pub open spec fn lit_half() -> F { f_lit(0.5f64) }
+pub open spec fn exp_hc_gpsi(z: Seq<F>) -> Seq<F> { let e2 = f_div(f_neg(z[0]), z[2]); seq3(logsafe_spec(e2), f_one(), e2) }
+pub open spec fn exp_hc_psi(z: Seq<F>) -> F { f_add(f_sub(f_mul(z[0], exp_hc_gpsi(z)[0]), z[0]), z[1]) }
+pub open spec fn exp_hc_coef(z: Seq<F>, u: Seq<F>, v: Seq<F>) -> F {
+    let g = exp_hc_gpsi(z); let psi = exp_hc_psi(z); let dotu = vm_dot(u, g); let dotv = vm_dot(v, g);
+    f_div(f_sub(f_mul(f_add(f_mul(u[0], f_sub(f_div(v[0], z[0]), f_div(v[2], z[2]))),
+                             f_div(f_mul(u[2], f_sub(f_div(f_mul(z[0], v[2]), z[2]), v[0])), z[2])), psi),
+                f_mul(f_mul(lit2(), dotu), dotv)),
+          f_mul(f_mul(psi, psi), psi))
+}
+pub open spec fn exp_hc_add0(z: Seq<F>, u: Seq<F>, v: Seq<F>) -> F {
+    let g = exp_hc_gpsi(z); let psi = exp_hc_psi(z); let dotu = vm_dot(u, g); let dotv = vm_dot(v, g); let inv = f_recip(f_mul(psi, psi));
+    f_add(f_add(f_sub(f_div(f_mul(f_mul(f_sub(f_recip(psi), f_div(lit2(), z[0])), u[0]), v[0]), f_mul(z[0], z[0])),
+                      f_div(f_div(f_mul(u[2], v[2]), f_mul(z[2], z[2])), psi)),
+                f_mul(f_mul(dotu, inv), f_sub(f_div(v[0], z[0]), f_div(v[2], z[2])))),
+          f_mul(f_mul(dotv, inv), f_sub(f_div(u[0], z[0]), f_div(u[2], z[2]))))
+}
+pub open spec fn exp_hc_add2(z: Seq<F>, u: Seq<F>, v: Seq<F>) -> F {
+    let g = exp_hc_gpsi(z); let psi = exp_hc_psi(z); let dotu = vm_dot(u, g); let dotv = vm_dot(v, g); let inv = f_recip(f_mul(psi, psi));
+    let zz = f_mul(z[2], z[2]);
+    f_add(f_add(f_sub(f_div(f_mul(f_mul(f_mul(lit2(), f_sub(f_div(z[0], psi), f_one())), u[2]), v[2]), f_mul(zz, z[2])),
+                      f_div(f_div(f_add(f_mul(u[2], v[0]), f_mul(u[0], v[2])), zz), psi)),
+                f_mul(f_mul(dotu, inv), f_sub(f_div(f_mul(z[0], v[2]), zz), f_div(v[0], z[2])))),
+          f_mul(f_mul(dotv, inv), f_sub(f_div(f_mul(z[0], u[2]), zz), f_div(u[0], z[2]))))
+}
+pub open spec fn exp_higher_correction(h: Seq<F>, z: Seq<F>, ds: Seq<F>, v: Seq<F>) -> Seq<F> {
+    if !ch_ok(h) { seq3(f_zero(), f_zero(), f_zero()) } else {
+        let u = ch_solution(h, ds); let g = exp_hc_gpsi(z); let coef = exp_hc_coef(z, u, v);
+        seq3(f_mul(f_add(f_mul(g[0], coef), exp_hc_add0(z, u, v)), lit_half()),
+             f_mul(f_mul(g[1], coef), lit_half()),
+             f_mul(f_add(f_mul(g[2], coef), exp_hc_add2(z, u, v)), lit_half()))
+    }
+}
 // Primal barrier (expcone.rs): f(s) = -2 log(s1) - log(s2) - log((1 - w)^2 / w) - 3,  w = W(1 - s0/s1 - log(s1/s2))
 pub open spec fn exp_barrier_primal(s: Seq<F>) -> F {
     let om = f_wright_omega(exp_omega_arg(s));
@@ -401,9 +477,6 @@ impl ExponentialCone<F> {
     pub open spec fn params_eq(&self, o: Self) -> bool { true }
     // what gradient_primal / barrier_primal need in order not to hit the documented panic of _wright_omega
     pub open spec fn primal_pre(&self, s: Seq<F>) -> bool { !f_lt(exp_omega_arg(s), f_zero()) }
-    #[verifier::external_body] pub fn higher_correction(&mut self, eta: &mut [F], ds: &[F], v: &[F])
-        requires old(eta)@.len() == 3, ds@.len() == 3, v@.len() == 3,
-        ensures *final(self) == *old(self), final(eta)@.len() == 3, final(eta)@ == old(self).higher_correction_spec(ds@, v@), { unimplemented!() }
 //@fn file=src/solver/core/cones/expcone.rs in="Nonsymmetric3DCone<T> for ExponentialCone<T>" name=gradient_primal rules=R1,R2 ret=r
 //@contract
     requires s@.len() == 3, self.primal_pre(s@),
@@ -536,10 +609,12 @@ impl ExponentialCone<F> {
 //@end
 // the REAL bodies of the callees that are otherwise used through their assumed (uninterpreted-result) contracts, under the part of
 // those contracts that can be proved: no panic for vectors of length 3, and the cone is not modified
-//@fn file=src/solver/core/cones/expcone.rs in="NonsymmetricCone<T> for ExponentialCone<T>" name=higher_correction as=higher_correction_body rules=R1,R2,tupidx
+//@fn file=src/solver/core/cones/expcone.rs in="NonsymmetricCone<T> for ExponentialCone<T>" name=higher_correction rules=R1,R2,tupidx
 //@contract
     requires old(eta)@.len() == 3, ds@.len() == 3, v@.len() == 3,
-    ensures *final(self) == *old(self), final(eta)@.len() == 3,
+    ensures *final(self) == *old(self), final(eta)@.len() == 3, final(eta)@ =~= old(self).higher_correction_spec(ds@, v@),
+//@before "let psi ="
+        proof { assert(eta@ =~= exp_hc_gpsi(z@)); assert(u@ =~= ch_solution(H.data@, ds@)); }
 //@end
 //@fn file=src/solver/core/cones/expcone.rs in="NonsymmetricCone<T> for ExponentialCone<T>" name=barrier_dual rules=R1,R2 ret=r
 //@contract
@@ -621,8 +696,74 @@ pub open spec fn pow_dual_hess(al: F, z: Seq<F>, a: int, b: int) -> F {
     else if a == 1 && b == 2 { f_mul(g1, g2) }
     else { f_add(f_mul(g2, g2), f_div(lit2(), psi)) }
 }
-pub uninterp spec fn pow_gradient_primal(al: F, s: Seq<F>) -> Seq<F>;
-pub uninterp spec fn pow_higher_correction(al: F, h: Seq<F>, z: Seq<F>, ds: Seq<F>, v: Seq<F>) -> Seq<F>;
+// primal gradient g(s) of the power cone (powcone.rs; the conjugate gradient): phi = s0^(2 alpha) s1^(2 - 2 alpha);
+//   |s2| > eps:  g2 = sign(s2) * newton(|s2|, phi, alpha),  g0 = -(alpha g2 s2 + 1 + alpha)/s0,  g1 = -((1 - alpha) g2 s2 + 2 - alpha)/s1;
+//   otherwise:   g = (-(1 + alpha)/s0, -(2 - alpha)/s1, 0).
+// `_newton_raphson_powcone` is an ASSUMED stand-in: its value is the uninterpreted pow_g3_spec of exactly its arguments.
+pub uninterp spec fn pow_g3_spec(abs_s: F, phi: F, al: F) -> F;
+#[verifier::external_body]
+fn _newton_raphson_powcone(s3: F, phi: F, alpha: F) -> (r: F) ensures r == pow_g3_spec(s3, phi, alpha), { unimplemented!() }
+pub open spec fn pow_primal_phi(al: F, s: Seq<F>) -> F { f_mul(f_powf(s[0], f_mul(lit2(), al)), f_powf(s[1], f_sub(lit2(), f_mul(al, lit2())))) }
+pub open spec fn pow_gradient_primal(al: F, s: Seq<F>) -> Seq<F> {
+    let abs_s = f_abs(s[2]);
+    if f_lt(f_eps(), abs_s) {
+        let g2n = pow_g3_spec(abs_s, pow_primal_phi(al, s), al);
+        let g2 = if f_lt(s[2], f_zero()) { f_neg(g2n) } else { g2n };
+        seq3(f_div(f_neg(f_add(f_add(f_mul(f_mul(al, g2), s[2]), f_one()), al)), s[0]),
+             f_div(f_neg(f_sub(f_add(f_mul(f_mul(one_minus(al), g2), s[2]), lit2()), al)), s[1]),
+             g2)
+    } else {
+        seq3(f_div(f_neg(f_add(f_one(), al)), s[0]), f_div(f_neg(f_sub(lit2(), al)), s[1]), f_zero())
+    }
+}
+// 3rd-order correction eta at the stored point z (powcone.rs), u = H^{-1} ds through the explicit Cholesky pair (eta = 0 if a pivot fails):
+//   g_psi = (2 a phi/z0, 2(1-a) phi/z1, -2 z2),  H_psi = [2a(2a-1)phi/z0^2, 4a(1-a)phi/(z0 z1), 0; ., 2(1-a)(1-2a)phi/z1^2, 0; ., ., -2],
+//   eta = ( coef*g_psi - (2(1-a)u0v0/z0^3, 2a u1v1/z1^3, 0) + coef2*(1/z0, -1/z1, 0) + <g_psi,u>/psi^2 H_psi v + <g_psi,v>/psi^2 H_psi u ) / 2
+// every entry as the float expression evaluated
+pub open spec fn pow_hc_g(al: F, z: Seq<F>) -> Seq<F> {
+    let phi = pow_phi(al, z);
+    seq3(f_div(f_mul(f_mul(lit2(), al), phi), z[0]), f_div(f_mul(f_mul(lit2(), one_minus(al)), phi), z[1]), f_mul(f_neg(lit2()), z[2]))
+}
+pub open spec fn pow_hc_hpsi(al: F, z: Seq<F>, a: int, b: int) -> F {
+    let phi = pow_phi(al, z); let i = if a <= b { a } else { b }; let j = if a <= b { b } else { a };
+    if i == 0 && j == 0 { f_div(f_mul(f_mul(f_mul(lit2(), al), f_sub(f_mul(lit2(), al), f_one())), phi), f_mul(z[0], z[0])) }
+    else if i == 0 && j == 1 { f_div(f_mul(f_mul(f_mul(lit4(), al), one_minus(al)), phi), f_mul(z[0], z[1])) }
+    else if i == 1 && j == 1 { f_div(f_mul(f_mul(f_mul(lit2(), one_minus(al)), f_sub(f_one(), f_mul(lit2(), al))), phi), f_mul(z[1], z[1])) }
+    else if i == 2 && j == 2 { f_neg(lit2()) }
+    else { f_zero() }
+}
+pub open spec fn pow_hc_hrow(al: F, z: Seq<F>, i: int, x: Seq<F>) -> F {
+    f_add(f_add(f_mul(pow_hc_hpsi(al, z, i, 0), x[0]), f_mul(pow_hc_hpsi(al, z, i, 1), x[1])), f_mul(pow_hc_hpsi(al, z, i, 2), x[2]))
+}
+pub open spec fn pow_hc_hx(al: F, z: Seq<F>, x: Seq<F>) -> Seq<F> { seq3(pow_hc_hrow(al, z, 0, x), pow_hc_hrow(al, z, 1, x), pow_hc_hrow(al, z, 2, x)) }
+pub open spec fn pow_hc_coef(al: F, z: Seq<F>, u: Seq<F>, v: Seq<F>) -> F {
+    let g = pow_hc_g(al, z); let psi = pow_psi(al, z);
+    f_div(f_sub(f_mul(vm_dot(u, pow_hc_hx(al, z, v)), psi), f_mul(f_mul(lit2(), vm_dot(u, g)), vm_dot(v, g))), f_mul(f_mul(psi, psi), psi))
+}
+pub open spec fn pow_hc_coef2(al: F, z: Seq<F>, u: Seq<F>, v: Seq<F>) -> F {
+    f_div(f_mul(f_mul(f_mul(f_mul(f_mul(f_mul(lit4(), al), f_sub(f_mul(lit2(), al), f_one())), one_minus(al)), pow_phi(al, z)),
+                      f_sub(f_div(u[0], z[0]), f_div(u[1], z[1]))), f_sub(f_div(v[0], z[0]), f_div(v[1], z[1]))), pow_psi(al, z))
+}
+// eta before the last two statements (axpby with H_psi u, halving)
+pub open spec fn pow_hc_mid(al: F, z: Seq<F>, u: Seq<F>, v: Seq<F>) -> Seq<F> {
+    let g = pow_hc_g(al, z); let psi = pow_psi(al, z); let dotu = vm_dot(u, g); let inv = f_recip(f_mul(psi, psi));
+    let coef = pow_hc_coef(al, z, u, v); let coef2 = pow_hc_coef2(al, z, u, v); let hv = pow_hc_hx(al, z, v);
+    seq3(f_add(f_add(f_sub(f_mul(coef, g[0]), f_div(f_mul(f_mul(f_mul(lit2(), one_minus(al)), u[0]), v[0]), f_mul(f_mul(z[0], z[0]), z[0]))), f_div(coef2, z[0])),
+               f_mul(f_mul(hv[0], dotu), inv)),
+         f_add(f_sub(f_sub(f_mul(coef, g[1]), f_div(f_mul(f_mul(f_mul(lit2(), al), u[1]), v[1]), f_mul(f_mul(z[1], z[1]), z[1]))), f_div(coef2, z[1])),
+               f_mul(f_mul(hv[1], dotu), inv)),
+         f_add(f_mul(coef, g[2]), f_mul(f_mul(hv[2], dotu), inv)))
+}
+pub open spec fn pow_higher_correction(al: F, h: Seq<F>, z: Seq<F>, ds: Seq<F>, v: Seq<F>) -> Seq<F> {
+    if !ch_ok(h) { seq3(f_zero(), f_zero(), f_zero()) } else {
+        let u = ch_solution(h, ds); let g = pow_hc_g(al, z); let psi = pow_psi(al, z);
+        let w = f_mul(vm_dot(v, g), f_recip(f_mul(psi, psi)));
+        let mid = pow_hc_mid(al, z, u, v); let hu = pow_hc_hx(al, z, u);
+        seq3(f_mul(f_add(f_mul(w, hu[0]), f_mul(f_one(), mid[0])), lit_half()),
+             f_mul(f_add(f_mul(w, hu[1]), f_mul(f_one(), mid[1])), lit_half()),
+             f_mul(f_add(f_mul(w, hu[2]), f_mul(f_one(), mid[2])), lit_half()))
+    }
+}
 // Primal barrier (powcone.rs): f(s) = <s, g(s)> - f*(-g(s)) with <s, g(s)> = -3, g = gradient_primal(s):
 //   log((-g0/alpha)^(2 alpha) (-g1/(1-alpha))^(2 - 2 alpha) - g2^2) + (1-alpha) log(-g0) + alpha log(-g1) - 3
 pub open spec fn pow_barrier_primal(al: F, s: Seq<F>) -> F {
@@ -644,13 +785,13 @@ impl PowerCone<F> {
     pub open spec fn barrier_dual_spec(&self, z: Seq<F>) -> F { pow_barrier_dual(self.alpha, z) }
     pub open spec fn params_eq(&self, o: Self) -> bool { self.alpha == o.alpha }
     // what gradient_primal / barrier_primal need in order not to hit the documented panic of _wright_omega
-    // gradient_primal is ASSUMED (Newton iteration _newton_raphson_powcone with two closures): no precondition, uninterpreted value
+    // (no panic source in gradient_primal: the Newton iteration is a stand-in)
     pub open spec fn primal_pre(&self, s: Seq<F>) -> bool { true }
-    #[verifier::external_body] pub fn gradient_primal(&self, s: &[F]) -> (r: [F; 3])
-        requires s@.len() == 3, ensures r@ == self.gradient_primal_spec(s@), { unimplemented!() }
-    #[verifier::external_body] pub fn higher_correction(&mut self, eta: &mut [F], ds: &[F], v: &[F])
-        requires old(eta)@.len() == 3, ds@.len() == 3, v@.len() == 3,
-        ensures *final(self) == *old(self), final(eta)@.len() == 3, final(eta)@ == old(self).higher_correction_spec(ds@, v@), { unimplemented!() }
+//@fn file=src/solver/core/cones/powcone.rs in="Nonsymmetric3DCone<T> for PowerCone<T>" name=gradient_primal rules=R1,R2 ret=r
+//@contract
+    requires s@.len() == 3,
+    ensures r@ =~= self.gradient_primal_spec(s@),
+//@end
 //@fn file=src/solver/core/cones/powcone.rs in="NonsymmetricCone<T> for PowerCone<T>" name=barrier_primal rules=R1,R2 ret=r
 //@contract
     requires s@.len() == 3,
@@ -773,10 +914,24 @@ impl PowerCone<F> {
 //@end
 // the REAL bodies of the callees that are otherwise used through their assumed (uninterpreted-result) contracts, under the part of
 // those contracts that can be proved: no panic for vectors of length 3, and the cone is not modified
-//@fn file=src/solver/core/cones/powcone.rs in="NonsymmetricCone<T> for PowerCone<T>" name=higher_correction as=higher_correction_body rules=R1,R2,tupidx
+//@fn file=src/solver/core/cones/powcone.rs in="NonsymmetricCone<T> for PowerCone<T>" name=higher_correction rules=R1,R2,tupidx
 //@contract
     requires old(eta)@.len() == 3, ds@.len() == 3, v@.len() == 3,
-    ensures *final(self) == *old(self), final(eta)@.len() == 3,
+    ensures *final(self) == *old(self), final(eta)@.len() == 3, final(eta)@ =~= old(self).higher_correction_spec(ds@, v@),
+//@pre
+        proof { lemma_sym3_table(); }
+//@before "let dotpsiu ="
+        proof {
+            assert(u@ =~= ch_solution(H.data@, ds@));
+            assert(eta@ =~= pow_hc_g(alpha, z@));
+            assert(forall|a: int, b: int| 0 <= a < 3 && 0 <= b < 3 ==> #[trigger] m3(Hpsi.data@, a, b) == pow_hc_hpsi(alpha, z@, a, b));
+        }
+//@before "let coef ="
+        proof { assert(Hpsiv@ =~= pow_hc_hx(alpha, z@, v@)); }
+//@before "let Hpsiu ="
+        proof { assert(eta@ =~= pow_hc_mid(alpha, z@, u@, v@)); }
+//@before "eta[..].axpby("
+        proof { assert(Hpsiu@ =~= pow_hc_hx(alpha, z@, u@)); }
 //@end
 //@fn file=src/solver/core/cones/powcone.rs in="NonsymmetricCone<T> for PowerCone<T>" name=barrier_dual rules=R1,R2 ret=r
 //@contract
@@ -1020,11 +1175,6 @@ F
 F
 (q: F) ensures q == f_mul(f_div(r1, zeta), zi)
 //@end
-    // the whole gradient_primal: ASSUMED to be its verified tail slice (gradient_primal_tail below) run with phi = gp_phi_spec
-    #[verifier::external_body] pub fn gradient_primal(&self, g: &mut [F], s: &[F])
-        requires old(g)@.len() == gp_dim(*self), s@.len() == gp_dim(*self),
-        ensures final(g)@ == gp_gradient_primal(self.alpha@, self.data.psi, s@),
-    { unimplemented!() }
 //@fn file=src/solver/core/cones/genpowcone.rs in="NonsymmetricCone<T> for GenPowerCone<T>" name=barrier_primal rules=R1,R2 ret=r
 //@contract
     requires gp_wf0(*old(self)), s@.len() == gp_dim(*old(self)),
@@ -1155,8 +1305,11 @@ pub open spec fn gp_gradient_primal_entry(al: Seq<F>, psi: F, s: Seq<F>, phi: F,
         if i < dim1 { f_div(f_neg(f_add(f_one(), al[i])), s[i]) } else { f_zero() }
     }
 }
-// the whole function: the slice above with phi = the (DROPPED, uninterpreted) fold  prod_i s_i^(2 alpha_i)
-pub uninterp spec fn gp_phi_spec(al: Seq<F>, s: Seq<F>) -> F;
+// the whole function: phi = the unscaled prod_i s_i^(2 alpha_i), as the left fold from 1 the code performs
+pub open spec fn gp_phi_fold(al: Seq<F>, s: Seq<F>, k: int) -> F decreases k {
+    if k <= 0 { f_one() } else { f_mul(gp_phi_fold(al, s, k - 1), f_powf(s[k - 1], f_mul(lit2(), al[k - 1]))) }
+}
+pub open spec fn gp_phi_spec(al: Seq<F>, s: Seq<F>) -> F { gp_phi_fold(al, s, al.len() as int) }
 pub open spec fn gp_gradient_primal(al: Seq<F>, psi: F, s: Seq<F>) -> Seq<F> {
     Seq::new(s.len(), |i: int| gp_gradient_primal_entry(al, psi, s, gp_phi_spec(al, s), i))
 }
@@ -1166,21 +1319,22 @@ pub open spec fn gp_barrier_primal(al: Seq<F>, psi: F, s: Seq<F>) -> F {
     f_sub(f_neg(gp_barrier_dual(al, seq_neg(gp_gradient_primal(al, psi, s)))), f_from_usize((al.len() + 1) as usize))
 }
 impl GenPowerCone<F> {
-//@fn file=src/solver/core/cones/genpowcone.rs in="NonsymmetricNDCone<T> for GenPowerCone<T>" name=gradient_primal as=gradient_primal_tail rules=R1,R2,zipidx:1=mii;2=mii from="let (p, r) = s.split_at(dim1);" to="if norm_r" header="fn gradient_primal_tail<T: FloatT>(&self, g: &mut [T], s: &[T], dim1: usize, data: &GenPowerConeData<T>, phi: T)"
+//@fn file=src/solver/core/cones/genpowcone.rs in="NonsymmetricNDCone<T> for GenPowerCone<T>" name=gradient_primal rules=R1,R2,R24,zipidx:1=ii;2=mii;3=mii
 //@contract
-    requires gp_wf0(*self), dim1 == gp_dim1(*self), *data == *self.data,
-        old(g)@.len() == gp_dim(*self), s@.len() == gp_dim(*self),
-    ensures final(g)@.len() == old(g)@.len(),
-        forall|i: int| 0 <= i < gp_dim(*self) ==> #[trigger] final(g)@[i] == gp_gradient_primal_entry(self.alpha@, self.data.psi, s@, phi, i),
+    requires old(g)@.len() == gp_dim(*self), s@.len() == gp_dim(*self),
+    ensures final(g)@ =~= gp_gradient_primal(self.alpha@, self.data.psi, s@),
 //@closure 1
 F
 (q: F) ensures q == f_mul(f_div(g1, norm_r), r)
 //@loop 1
-            invariant r14_n1 == dim1, gp@.len() == dim1, p@.len() == dim1, self.alpha@.len() == dim1,
-                forall|k: int| 0 <= k < r14_i1 ==> #[trigger] gp@[k] == f_div(f_neg(f_add(f_add(f_one(), self.alpha@[k]), f_mul(f_mul(self.alpha@[k], g1), norm_r))), p@[k]),
+            invariant r14_n1 == dim1, r14_lo1_0 == 0, dim1 == self.alpha@.len(), s@.len() >= dim1, two == lit2(),
+                phi == gp_phi_fold(self.alpha@, s@, r14_i1 as int),
 //@loop 2
             invariant r14_n2 == dim1, gp@.len() == dim1, p@.len() == dim1, self.alpha@.len() == dim1,
-                forall|k: int| 0 <= k < r14_i2 ==> #[trigger] gp@[k] == f_div(f_neg(f_add(f_one(), self.alpha@[k])), p@[k]),
+                forall|k: int| 0 <= k < r14_i2 ==> #[trigger] gp@[k] == f_div(f_neg(f_add(f_add(f_one(), self.alpha@[k]), f_mul(f_mul(self.alpha@[k], g1), norm_r))), p@[k]),
+//@loop 3
+            invariant r14_n3 == dim1, gp@.len() == dim1, p@.len() == dim1, self.alpha@.len() == dim1,
+                forall|k: int| 0 <= k < r14_i3 ==> #[trigger] gp@[k] == f_div(f_neg(f_add(f_one(), self.alpha@[k])), p@[k]),
 //@end
 }
 
